@@ -16,7 +16,10 @@ RULE = ('exhaustive: prior file {absent, valid, corrupt} x all data-URL scripts 
         'of the checksum URL laid out as <lead><md5><separator+name><trail> (lead: none / space(s) / TAB / blank line; '
         'separator: two spaces, one space, space+*, TAB, none; trail: none / LF / CRLF / space+LF / two LF), and a part of '
         'those with "checksum unavailable" served as a 200 answer holding an empty or whitespace-only text; the texts '
-        'really served are parsed by the Lean model of `text.split()[0]` (firstField / parseSum) for the prediction. '
+        'really served are parsed by the Lean model of `text.split()[0]` (firstField / parseSum) for the prediction; half of '
+        'the layout cases publish the digest in UPPER or MiXeD letter case (a correct checksum: hexadecimal numerals), files that do '
+        'not start with the digest (BOM, BSD form, backslash-escaped line) are outside the statement and not generated. An exception of the call other than '
+        'HTTPError/RuntimeError is an outcome (judged on the request log and the file, CORR against the model), not an alarm by itself. '
         'non-trivial = at least one data request was made or the pre-check ran')
 ASSUMPTIONS = ['requests / streaming / hashlib.md5 are outside the model (bodies and checksums are tokens, '
                'hash = identity in the driver; the theorems hold for every hash function)',
@@ -49,6 +52,15 @@ TRAILS = ['\n', '', '\r\n', ' \n', '\n\n']
 BLANKS = ['', ' \n', '\n', ' ', '\t\r\n']
 
 
+def _lettercase(digest, how):
+    """The same hexadecimal numeral in the other letter case (certutil / Get-FileHash publish upper case)."""
+    if how == 'upper':
+        return digest.upper()
+    if how == 'mixed':
+        return ''.join(c.upper() if i % 2 else c for i, c in enumerate(digest))
+    return digest
+
+
 def _sum_answer(case, s, md5):
     """What the checksum URL answers for script token `s`: None = 404, else (headers, text or bytes). One function for
     the mock, the loopback server and the query to the Lean model (which parses the very text that is served)."""
@@ -61,9 +73,15 @@ def _sum_answer(case, s, md5):
     if s == 9 and case.get('wrongfmt') == 'nonhex':
         # a published checksum that is not even hexadecimal (another tool's output format): a mismatch
         return ({}, 'MD5(data.bin)= ' + md5[1] + '\n')
+    # NOT generated, on purpose: files that do not START with the digest (UTF-8 byte-order mark first, BSD `MD5 (f) = h`
+    # with the file's real digest, md5sum's backslash-escaped line). The statement only knows correct / wrong / unavailable
+    # and such a file is neither clearly: the code documents `<md5>[  <name>]`, md5sum -c itself rejects a BOM, and what
+    # `requests` makes of a BOM depends on the Content-Type (kept as 'ï»¿' for text/plain, stripped by the charset
+    # detection when there is no Content-Type) - a reader that accepts it and one that reports a mismatch both keep the
+    # property (no normal return with a bad file either way).
     if case.get('layout') is not None:
         lead, mid, trail = case['layout']
-        return ({}, lead + md5[s] + mid + trail)
+        return ({}, lead + _lettercase(md5[s], case.get('digestcase')) + mid + trail)
     if case.get('sumfmt') == 'latin1_name':
         # md5sum line whose file name is not valid UTF-8
         return ({'Content-Type': 'text/plain'}, md5[s].encode() + b'  donn\xe9es.bin\n')
@@ -138,6 +156,8 @@ def impl(case):
                 result = 'http_error'
             except RuntimeError:
                 result = 'mismatch'
+            except Exception as e:  # noqa: any other exception: the call did not return normally
+                result = 'raised:%s' % type(e).__name__
         EV.reset()
         content = path.read_bytes() if path.exists() else None
     tok = None
@@ -226,6 +246,8 @@ def _impl_server(case, bodies, md5, data_cb, sum_cb, log):
                 result = 'http_error'
             except RuntimeError:
                 result = 'mismatch'
+            except Exception as e:  # noqa: any other exception: the call did not return normally
+                result = 'raised:%s' % type(e).__name__
             EV.reset()
             content = path.read_bytes() if path.exists() else None
     finally:
@@ -249,8 +271,13 @@ def judge(case, impl_res, ans):
         return None
     m = ans['ok']
     if 'raised' in impl_res:
-        return 'SPEC: real code raised %s (%s) at %s (neither HTTPError nor RuntimeError)' % (
-            impl_res['raised'], impl_res['msg'], impl_res['where'])
+        # an exception OUTSIDE the download_file call (every exception of the call itself is an outcome, see impl): either
+        # my scaffolding (scratch directory, mock, server) or the emitter reset of the real code; no clause of the statement
+        # speaks about it
+        if impl_res.get('where'):
+            return 'CORR: the real code raised %s (%s) at %s outside the download call' % (
+                impl_res['raised'], impl_res['msg'], impl_res['where'])
+        return 'MACHINERY: the scaffolding raised %s (%s)' % (impl_res['raised'], impl_res['msg'])
     ok = impl_res['ok']
     if m.get('ss') != list(case['ss']):
         # the Lean parse (firstField / parseSum) of the texts that were served disagrees with what the generator meant
@@ -271,11 +298,16 @@ def judge(case, impl_res, ans):
     n_data = ok['log'].count('data')
     if returned and any(d == 0 for d in case['ds'][:n_data]) or (returned and n_data > len(case['ds'])):
         return 'SPEC: an HTTP error on a data request did not raise'
+    other_exc = ok['result'].startswith('raised:')
     if case['prior'] is not None and case['ss'] and case['ss'][0] == case['prior'] and \
-            (n_data != 0 or ok['result'] != 'skipped' or ok['file'] != case['prior']):
+            (n_data != 0 or (ok['result'] != 'skipped' and not other_exc) or ok['file'] != case['prior']):
         return 'SPEC: a valid existing file was downloaded again'
     if ok['result'] != m['result'] or ok['file'] != m['file'] or ok['log'] != m['log']:
-        if ok['result'] != m['result'] and {ok['result'], m['result']} & {'mismatch', 'http_error'}:
+        # an exception of another type than HTTPError / RuntimeError: the statement forbids normal returns (with a bad
+        # file, after an HTTP error, after a persistent mismatch), re-downloading a valid file and a second retry - all
+        # judged above on the request log and the file; a raise as such violates no clause, it only differs from the model
+        if ok['result'] != m['result'] and not other_exc and \
+                {ok['result'], m['result']} & {'mismatch', 'http_error'}:
             return 'SPEC: outcome %s, expected %s (retry/raise logic)' % (ok['result'], m['result'])
         return 'CORR: outcome/file/request log differ from the model: %s vs %s' % (
             [ok['result'], ok['file'], ok['log']], [m['result'], m['file'], m['log']])
@@ -312,6 +344,9 @@ def tally(rep, case, impl_res, ans):
     rep.count('size_probe(HEAD):%s' % case.get('head', 'none'))
     rep.count('output_path:%s' % case.get('pathkind', 'path'))
     rep.count('checksum_file_format:%s' % _sumfmt(case))
+    rep.count('checksum_letter_case:%s' % (case.get('digestcase') or 'lower'))
+    if 9 in case['ss']:
+        rep.count('wrong_checksum_form:%s' % (case.get('wrongfmt') or 'hex'))
     if case.get('layout') is not None:
         lead, mid, trail = case['layout']
         rep.count('checksum_layout_lead:%r' % lead)
@@ -340,6 +375,9 @@ def shrink(case):
         yield c
     if case.get('blank') is not None:
         c = dict(case); c['blank'] = None
+        yield c
+    if case.get('digestcase') == 'mixed':
+        c = dict(case); c['digestcase'] = 'upper'
         yield c
     if case.get('layout') is not None:
         lay = list(case['layout'])
@@ -378,6 +416,7 @@ def gen(tier, rng):
                             c = dict(p=PID, prior=prior, ds=list(ds), ss=list(ss), head=HEADS[j % 7],
                                      layout=[LEADS[j % 7], MIDS[(j // 7) % 6], TRAILS[(j // 42) % 5]],
                                      blank=BLANKS[(j // 4) % 5] if j % 4 == 3 else None,
+                                     digestcase=[None, 'upper', None, 'mixed'][(j // 2) % 4],
                                      wrongfmt=['hex', 'nonhex'][(j // 3) % 2])
                             if j % 10 == 9:
                                 c.update(server=True, head=['none', 'ok', '403'][j % 3], encoding='identity')
